@@ -99,12 +99,15 @@ def gen_scenario(rng):
     for jm in (True, False):
         if rng.random() < 0.8:
             objects.append({'kind': 'pp', 'json': jm, 'value': jsonable(c11.gen(rng, 0, jm))})
+    if rng.random() < 0.6:
+        objects.append({'kind': 'ppwrap', 'value': jsonable(c11.gen(rng, 0, True))})
     repo = c06.gen_history(rng, 14)
     objects.append({'kind': 'ghist', 'repo': mg.describe(repo), 'text': rng.choice(["BUG-7", "fix"])})
     objects.append({'kind': 'hdoc', 'level': rng.choice([1, 2, 2]), 'bound': rng.random() < 0.6,
                     'target': rng.choice(['object', 'object', 'method'])})
     confs = [gen_conf(rng) for _ in range(rng.randint(3, 5))]
     requests = []
+    cur_fmt = {}
     for _ in range(rng.randint(16, 30)):
         o = rng.randrange(len(objects))
         if rng.random() < 0.4:
@@ -114,14 +117,24 @@ def gen_scenario(rng):
         via = rng.choice(['explicit', 'explicit', 'global', 'palette_class', 'palette_obj', 'custom_palette'])
         mode = rng.choice(['whole', 'whole', 'lines', 'lines_join', 'whole_then_lines', 'lines_twice', 'interleaved',
                            'copy', 'concat', 'format', 'plain'])
-        if objects[o]['kind'] in ('rec', 'hdoc'):
+        if objects[o]['kind'] in ('rec', 'hdoc', 'ppwrap'):
             mode = 'whole'   # a formatted record is a plain CHText, help text is printed: no line iteration
+        if objects[o]['kind'] == 'ppwrap':
+            via = 'global' 
         long_lived = rng.random() < 0.3
         for nc in ([False, True] if rng.random() < 0.6 else [rng.random() < 0.3]):
             requests.append({'obj': o, 'conf': c, 'no_color': nc, 'mode': mode, 'via': via,
                              'long_lived_conf': long_lived})
-            if via == 'global' and objects[o]['kind'] != 'hdoc' and rng.random() < 0.5:
+            if via == 'global' and objects[o]['kind'] not in ('hdoc', 'ppwrap') and rng.random() < 0.5:
                 requests[-1]['switch_conf'] = confs[(c + 1) % len(confs)]
+            if objects[o]['kind'] == 'table' and 'base_spec' not in objects[o]:
+                if rng.random() < 0.3:
+                    # the table is shown with another set of columns (and its limits given again) from now on
+                    cols = [x for x in objects[o]['fmt'].split(";")[0].split(",")]
+                    keep = rng.sample(cols, rng.randint(1, len(cols)))
+                    cur_fmt[o] = ",".join(keep) + rng.choice([";*", ";2:1", ";*"])
+                if o in cur_fmt:
+                    requests[-1]['set_fmt'] = cur_fmt[o]
     return {'objects': objects, 'confs': confs, 'requests': requests}
 
 
@@ -236,15 +249,16 @@ def run_scenario(ctx, scenario, case, workdir):
         except sgr.SgrError as err:
             problems.append(("malformed-escape-sequence-in-rendering", dict(where, err=str(err))))
             continue
-        same = by_req.setdefault((req['obj'], req['conf'], req['no_color'], req['via'] == 'custom_palette'),
+        same = by_req.setdefault((req['obj'], req['conf'], req['no_color'], req['via'] == 'custom_palette',
+                                  req.get('set_fmt')),
                                  (out, req['mode'], idx))
         if same[0] != out:
             problems.append(("line-iteration-differs-from-whole-text",
                              dict(where, other_request=same[2], other_mode=same[1])))
             continue
-        other = first.get((req['obj'], req['conf']))
+        other = first.get((req['obj'], req['conf'], req.get('set_fmt')))
         if other is None:
-            first[(req['obj'], req['conf'])] = (req['no_color'], stripped, idx)
+            first[(req['obj'], req['conf'], req.get('set_fmt'))] = (req['no_color'], stripped, idx)
         elif other[0] != req['no_color']:
             ctx.count("strip_equals_no_color_checks")
             if other[1] != stripped:
